@@ -122,16 +122,16 @@ NumpyWs == IF Ev.wf = "one" THEN Ones(Len(Ev.rows))
 
 Expect ==
   LET op == Ev.op IN
-  CASE op \in {"New", "NewDefault"} -> X(Ev.s, FALSE, Zero(Ev.d), Ev.d, TRUE, TRUE, "det")
+  CASE op \in {"New", "NewDefault", "NewShared"} -> X(Ev.s, FALSE, Zero(Ev.d), Ev.d, TRUE, TRUE, "det")
     [] op = "Fill" ->
          LET p == pool[Ev.s] IN
-         X(Ev.s, Raises(p.c, p.d, Ev.x, Ev.w), Fill(p.c, p.d, Ev.x, Ev.w), p.d, p.mut, FALSE, "det")
+         X(Ev.s, SharedFillable(p.d) \/ Raises(p.c, p.d, Ev.x, Ev.w), Fill(p.c, p.d, Ev.x, Ev.w), p.d, p.mut, FALSE, "det")
     [] op \in {"FillNoW", "Increment"} ->
          LET p == pool[Ev.s] IN
-         X(Ev.s, Raises(p.c, p.d, Ev.x, Q(1)), Fill(p.c, p.d, Ev.x, Q(1)), p.d, p.mut, FALSE, "det")
+         X(Ev.s, SharedFillable(p.d) \/ Raises(p.c, p.d, Ev.x, Q(1)), Fill(p.c, p.d, Ev.x, Q(1)), p.d, p.mut, FALSE, "det")
     [] op = "FillNumpy" ->
          LET p == pool[Ev.s] IN
-         X(Ev.s, FALSE, FoldFill(p.c, p.d, Ev.rows, NumpyWs), p.d, p.mut, FALSE, "strip")
+         X(Ev.s, SharedFillable(p.d), FoldFill(p.c, p.d, Ev.rows, NumpyWs), p.d, p.mut, FALSE, "strip")
     [] op \in {"Add", "Combine"} ->
          LET a == pool[Ev.a] b == pool[Ev.b] ok == CompatD(a.d, b.d) IN
          X(Ev.t, ~ok, IF ok THEN Merge(a.c, b.c) ELSE a.c, a.d, a.mut, TRUE, "det")
